@@ -1523,6 +1523,13 @@ class SymEval:
             # a nested function of the reference tree that now lives at module level / as a method: applied like the closure it was
             self_t = recv if (target.cls and target.parent is None and _first_param(target.node) in ("self",)) else None
             return self.inline_call(target, args, kwargs, self_t, node, frame)
+        if target is not None and _memoised(target):
+            # a memoised function is not the expression it computes: later calls return what the first call saw (of a mutable
+            # argument's configuration, too).  Kept as a call of the cache, never analysed inline.
+            nm_ = f"cached:rex.{target.qualname}"
+            t_ = T.mk_call(nm_, list(args), list(kwargs))
+            self.emit("call", nm_, t_, node, frame, args=tuple(args), kwargs=tuple(kwargs), recv=recv)
+            return t_
         if target is not None and self.is_new_helper(target) and not self._pulled_up(target, recv, method) and len(self.helper_stack) < 3 and target.qualname not in self.helper_stack:
             # a function the reference tree does not have: a helper extracted later; analyse it at the call site, with its
             # events attributed to the caller
@@ -2181,6 +2188,14 @@ def _index_loop_as_zip(st: ast.For, frame=None, ev=None):
     ast.copy_location(f, st)
     ast.fix_missing_locations(f)
     return f
+
+
+def _memoised(target) -> bool:
+    for d in target.node.decorator_list:
+        nm = _dotted(d.func if isinstance(d, ast.Call) else d) or ""
+        if nm.split(".")[-1] in ("lru_cache", "cache", "cached_property", "memoize", "memoise"):
+            return True
+    return False
 
 
 def _takewhile_count(e: ast.Call):
